@@ -67,6 +67,7 @@ def warm():
     import lib_trainer.run_trainer           # noqa
     import lib_scorer.omen_scorer            # noqa
     trainer.install()
+    install_work_limit()
 
 
 def load_omen(odir):
@@ -77,14 +78,42 @@ def load_omen(odir):
     return g if ok else None
 
 
-def drain(mc, cap):
+class WorkLimit(Exception):
+    """deterministic work bound on the real generator (counted calls, not wall time)"""
+
+
+_WORK = [None]
+
+
+def install_work_limit():
+    from lib_guesser.omen import guess_structure as gs
+    if getattr(gs.GuessStructure, "_pcfgsim_limited", False):
+        return
+    orig = gs.GuessStructure._fill_out_parse_tree
+
+    def _fill_out_parse_tree(self, ip, length, target_level):
+        if _WORK[0] is not None:
+            _WORK[0] -= 1
+            if _WORK[0] < 0:
+                raise WorkLimit()
+        return orig(self, ip, length, target_level)
+
+    gs.GuessStructure._fill_out_parse_tree = _fill_out_parse_tree
+    gs.GuessStructure._pcfgsim_limited = True
+
+
+def drain(mc, cap, work=None):
     out = []
-    while len(out) <= cap:
-        s = mc.next_guess()
-        if s is None:
-            return out, True
-        out.append(s)
-    return out, False
+    _WORK[0] = work
+    try:
+        while len(out) <= cap:
+            s = mc.next_guess()
+            if s is None:
+                return out, True
+            out.append(s)
+        return out, False
+    finally:
+        _WORK[0] = None
 
 
 def trained_world(t, flavour=None, res=None):
@@ -285,7 +314,10 @@ def run_c18(t, tier, res):
         budget_left -= c
         try:
             mc = MarkovCracker(g, lvl, Optimizer(max_length=4))
-            got, done = drain(mc, c * 2 + 5)
+            got, done = drain(mc, c * 2 + 5, work=400000)
+        except WorkLimit:
+            res.stats["levels_skipped_work_limit"] += 1
+            continue
         except Exception:
             import traceback
             res.rejected = "generator_raised(C10)"
@@ -352,7 +384,10 @@ def run_c11(t, tier, res):
         if total + c > 15000:
             break
         try:
-            got, done = drain(MarkovCracker(g, lvl, Optimizer(max_length=4)), c * 2 + 5)
+            got, done = drain(MarkovCracker(g, lvl, Optimizer(max_length=4)), c * 2 + 5, work=400000)
+        except WorkLimit:
+            res.stats["levels_stopped_work_limit"] += 1
+            break
         except Exception:
             res.rejected = "generator_raised(C10)"
             return
